@@ -729,6 +729,36 @@ func ruleENG15(c *Ctx) {
 		}
 	}
 	c.Check(ok, "BuiltInFunctions.Retract forwards its parameter to gf.Knowledge.RetractRule", p.Pos(rt.Pos()), "must-call RetractRule(param) on the bound knowledge base", "Retract(name) does not retract `name` on the knowledge base bound to this call")
+	// ... and does nothing else: "every other rule is unaffected, an unknown name is a no-op". Any further call of a
+	// module function (the data context's own Retract hides the *fact* of that name) or store is another effect.
+	var extra []string
+	for _, ci := range callsIn(rt) {
+		callee, m := calleeOf(ci)
+		if callee == rr {
+			continue
+		}
+		name := calleeName(ci)
+		if isDiagnosticCallee(name) {
+			continue
+		}
+		if (callee != nil && fnInModule(callee)) || (m != nil && m.Pkg() != nil && inModule(m.Pkg().Path())) {
+			extra = append(extra, name+" at "+p.InstrPos(ci.(ssa.Instruction)))
+		}
+	}
+	for _, b := range rt.Blocks {
+		for _, in := range b.Instrs {
+			switch x := in.(type) {
+			case *ssa.Store:
+				if !localTemp(x.Addr) {
+					extra = append(extra, "store at "+p.InstrPos(in))
+				}
+			case *ssa.MapUpdate:
+				extra = append(extra, "map update at "+p.InstrPos(in))
+			}
+		}
+	}
+	sort.Strings(extra)
+	c.Check(len(extra) == 0, "BuiltInFunctions.Retract has no effect besides retracting the rule", p.Pos(rt.Pos()), "no other module call, no store", "Retract(name) also does: "+strings.Join(extra, "; ")+" (with the data context's Retract a fact whose key equals the rule's name disappears for every other rule)")
 	// RetractRule: only store is Retracted=true on an entry, dominated by the true edge of entry.RuleName == param
 	var stores []ssa.Instruction
 	var other []string
@@ -904,4 +934,40 @@ func onlyFalseReturns(b *ssa.BasicBlock) bool {
 		return true
 	}
 	return walk(b, 0)
+}
+
+func init() {
+	register("ENG-16", "the engine does not reach through a pointer an interface call handed it without a nil test", 1, ruleENG16)
+}
+
+// ENG-16 (C15, C06, C14): nothing recovers a panic raised by the engine's own statements (the barriers of ERR-1 sit in
+// RuleEntry.Evaluate and Execute). What an interface method of the caller's data context or of a listener hands back
+// can be nil - GetRuleEntry() is nil until a rule was selected on that data context - so a dereference of such a result,
+// for a log line on the way to `return ctx.Err()` say, turns a reported cancellation into a crash (round-5 seed C15/b).
+func ruleENG16(c *Ctx) {
+	p := c.P
+	var fns []*ssa.Function
+	for _, fn := range p.ModuleFuncs() {
+		if fnPkgShort(fn) == "engine" && fn.Blocks != nil {
+			fns = append(fns, fn)
+		}
+	}
+	sort.Slice(fns, func(i, j int) bool { return fns[i].String() < fns[j].String() })
+	nSites := 0
+	for _, fn := range fns {
+		for _, ci := range callsIn(fn) {
+			call, ok := ci.(*ssa.Call)
+			if !ok || !call.Call.IsInvoke() {
+				continue
+			}
+			if _, isPtr := call.Type().Underlying().(*types.Pointer); !isPtr {
+				continue
+			}
+			nSites++
+			bad := c.unguardedDerefs(fn, call, 0)
+			construct := fmt.Sprintf("%s / result of %s is nil-tested before it is dereferenced", fnName(fn), calleeName(ci))
+			c.Check(len(bad) == 0, construct, p.InstrPos(call), "no unguarded dereference", "the pointer returned by "+calleeName(ci)+" is dereferenced without a nil test ("+strings.Join(uniq(bad), "; ")+"): it is nil until a rule was selected on this data context, and a panic in the engine's own code is recovered by nothing, so the run ends in a crash instead of its result or the context's error")
+		}
+	}
+	c.OK("engine package / pointer results of interface calls examined", "engine/GruleEngine.go", fmt.Sprintf("%d functions, %d such results", len(fns), nSites))
 }
